@@ -29,6 +29,10 @@ def bindings(rnd, n):
         (("#333333", (1.0, 1.0, 1.0), False), ("#010101", "#ffffff", False)),
         (((1, 1, 1), (1.0, 1.0, 1.0), False), ((1.0, 1.0, 1.0), (0, 0, 0), True)),
         (((True, True, True), "#ffffff", False), ((0.0, 0.0, 1.0), (0, 0, 1), False)),
+        # translucent BACKGROUNDS (composited over white, whatever ran before); rounding ties in percentages
+        (("#777777", "rgba(255,255,255,0.5)", False), ("#cccccc", (0, 0, 0, 0.5), False)),
+        (("rgb(30%, 30%, 30%)", "#ffffff", False), ("rgb(70%, 70%, 70%)", "#000000", False)),
+        (("rgb(10%, 50%, 90%)", "#ffffff", True), ("#222222", "rgb(30%, 70%, 30%)", False)),
         # a sequence and the informal string spelled exactly like its repr / str
         (((0.6, 0.6, 0.6), "white", False), ("(0.6, 0.6, 0.6)", "white", False)),
         (((200.0, 0.5, 0.5), "#ffffff", False), ("(200.0, 0.5, 0.5)", "#ffffff", False)),
@@ -83,7 +87,8 @@ def concretise(hist, bind):
                 keymap[apirec.krepr("pair", e[0], e[1], lg)] = (e[0], e[1], lg)
             ops.append(["bulk", [[E(x) for x in e] for e in ents], m, bool(v), bool(sv)])
         elif kind == "cli":
-            ops.append(["cli", SHEET, []])
+            k = op[1] if len(op) > 1 else 1
+            ops.append(["cli", SHEET, [[], ["--default-bg", "#202020", "--premium"], ["--default-bg", "black", "--mode", "0"]][k - 1]])
     return ops, keymap
 
 
@@ -182,7 +187,7 @@ def main():
     rep.add_model("ApiHist(Depth=3,NP=2) history generator", r, "abstract histories replayed into the implementation")
     hists = [h for h in hists if len(h) >= 2 and any(o[0] in ("fix", "bulk") for o in h[1:])]
     rep.extra["histories_enumerated_by_tlc"] = len(hists)
-    nb = 14 if t == "quick" else 40
+    nb = 17 if t == "quick" else 40
     binds = bindings(rnd, nb)
     nh = 420 if t == "quick" else 9000
     jobs = []
